@@ -1024,12 +1024,21 @@ func planC07(prop string, seed uint64, tier string, idx int) *Plan {
 		// a listing long enough for several pages, read while artifacts are being deleted and the page cache is lost
 		g.p.Profile = "referrers, paged listing with deletes between the pages"
 		k.RefLimit = int64(g.r.pick(300, 450, 700, 1200))
-		k.PageCacheMs = int64(g.r.pick(0, 50, 2000))
+		k.PageCacheMs = int64(g.r.pick(50, 2000)) // the cached pages expire between two requests of the chain …
+		if k.Store == "dir" && g.r.chance(35) {
+			k.PageCacheMs = 0 // … or the registry restarts
+		}
 		k.Delete = 1
 		g.pushManifest(0, subj, "app", false)
+		for i := g.r.between(4, 7); i > 0; i-- {
+			a := g.newImage(subj, -1)
+			g.p.Objs[a].RefAlgo, g.p.Objs[a].SubjAlgo = "", g.p.Objs[arts[0]].SubjAlgo
+			arts = append(arts, a)
+		}
 		for _, a := range arts {
 			if a != dangling && g.p.Objs[a].Subject == subj {
 				g.pushManifest(0, a, "", false)
+				g.ops[len(g.ops)-1].Algo, g.ops[len(g.ops)-1].QD = "", ""
 			}
 		}
 		for i := 0; i < 2; i++ {
